@@ -179,7 +179,10 @@ func c17Random(r *vh.Rng, maxLen int) string {
 }
 
 var c17Labels = []string{"example", "org", "com", "münchen", "пример", "испытание", "bücher", "例え", "test-1", "mx", "straße", "ελληνικά", "a"}
-var c17Locals = []string{"user", "bob", "postmaster", "rené", "ünïcode", "first.last", "a+tag", "дима", "q", "x_y", "o'neil", "用户"}
+var c17Locals = []string{"user", "bob", "postmaster", "rené", "ünïcode", "first.last", "a+tag", "дима", "q", "x_y", "o'neil", "用户",
+	// characters for which case mapping and normalisation interact: U+0130 (lower-cases to plain i, its
+	// decomposition I + U+0307 does not), U+01F0 (no precomposed upper case), Greek with tonos, Å (U+212B -> U+00C5)
+	"İstanbul", "x\u0130", "\u01f0an", "άλφα", "\u212bngström", "ǆemal", "ﬁsh"}
 
 type c17Addr struct{ mbox, domain string }
 
@@ -263,6 +266,23 @@ func c17Variants(r *vh.Rng, a c17Addr) []string {
 		}
 	case 4:
 		d2 = d2 + "."
+	}
+	if r.Chance(30) {
+		// one name, labels spelled independently: some as A-labels (any letter case), some as U-labels
+		ls := strings.Split(a.domain, ".")
+		for i, l := range ls {
+			if r.Bool() {
+				if al, err := idna.ToASCII(l); err == nil {
+					if r.Bool() {
+						al = asciiUpper(al)
+					}
+					ls[i] = al
+				}
+			} else if r.Chance(30) {
+				ls[i] = norm.NFD.String(l)
+			}
+		}
+		d2 = strings.Join(ls, ".")
 	}
 	vs = append(vs, m2+"@"+d2)
 	return vs
